@@ -28,7 +28,10 @@ pub const PRIMES: [u128; 7] = [primes::U32_TINY, primes::U32_SMALL, primes::U64_
 
 pub fn gen(rng: &mut Rng, idx: usize, n: usize, thorough: bool) -> String {
     let o = GenOpts { max_vars: if thorough { 8 } else { 6 }, max_ops: if thorough { 40 } else { 18 }, new_vars: true, small_tables: false };
-    let p = gen_prog(rng, idx, n, &o);
+    // every other case is drawn from the upper end of the size range (>= 5 variables): general SDD
+    // decision nodes with two-variable primes and larger subs need them
+    let idx2 = if idx % 2 == 1 { (n * 4) / 5 + idx / 5 } else { idx };
+    let p = gen_prog(rng, idx2.min(n.saturating_sub(1)), n, &o);
     let prog = parse(&p);
     let total = prog.total_vars();
     let npool = prog.ops.len();
@@ -118,7 +121,7 @@ fn ff_count_any<'a, const P: u128, D: DDNNFPtr<'a>>(p: D, codes: &[u64]) -> u128
 /// all normalised-weight counts of one diagram of any kind, as one comparable string
 fn counts_any<'a, D: DDNNFPtr<'a>>(p: D, codes: &[u64], total: usize) -> String {
     let pr8 = |c: u64| (c % 9) as f64 / 8.0;
-    let ut = |c: u64| ((c / 3) % 5) as f64 - 2.0;
+    let ut = |c: u64| [-2.0f64, -1.0, 1.0, 2.0, 0.0][((c / 3) % 5) as usize % if c % 7 == 0 { 5 } else { 4 }];
     let eu: WmcParams<ExpectedUtility> = WmcParams::new(HashMap::from_iter((0..total).map(|v| (VarLabel::new(v as u64), (ExpectedUtility(1.0 - pr8(codes[v]), -ut(codes[v])), ExpectedUtility(pr8(codes[v]), ut(codes[v])))))));
     let cx: WmcParams<Complex> = WmcParams::new(HashMap::from_iter((0..total).map(|v| (VarLabel::new(v as u64), (Complex { re: 1.0 - pr8(codes[v]), im: -ut(codes[v]) }, Complex { re: pr8(codes[v]), im: ut(codes[v]) })))));
     let mk_poly = |a: f64, bb: f64| { let mut q = Polynomial::<RealSemiring>::zero(); q.coefficients[0] = RealSemiring(a); q.coefficients[1] = RealSemiring(bb); q.len = 2; q };
@@ -190,7 +193,7 @@ pub fn run(case: &str, st: &mut Stats) -> Outcome {
     // --- normalised weights in the other shipped semirings (oracle only): probabilities k/8,
     // utilities / imaginary parts / linear coefficients cancelling between low and high
     let pr8 = |c: u64| (c % 9) as f64 / 8.0;
-    let ut = |c: u64| ((c / 3) % 5) as f64 - 2.0;
+    let ut = |c: u64| [-2.0f64, -1.0, 1.0, 2.0, 0.0][((c / 3) % 5) as usize % if c % 7 == 0 { 5 } else { 4 }];
     let eu: WmcParams<ExpectedUtility> = WmcParams::new(HashMap::from_iter((0..total).map(|v| (VarLabel::new(v as u64), (ExpectedUtility(1.0 - pr8(codes[v]), -ut(codes[v])), ExpectedUtility(pr8(codes[v]), ut(codes[v])))))));
     let cx: WmcParams<Complex> = WmcParams::new(HashMap::from_iter((0..total).map(|v| (VarLabel::new(v as u64), (Complex { re: 1.0 - pr8(codes[v]), im: -ut(codes[v]) }, Complex { re: pr8(codes[v]), im: ut(codes[v]) })))));
     let mk_poly = |a: f64, bb: f64| { let mut q = Polynomial::<RealSemiring>::zero(); q.coefficients[0] = RealSemiring(a); q.coefficients[1] = RealSemiring(bb); q.len = 2; q };
@@ -246,9 +249,15 @@ pub fn run(case: &str, st: &mut Stats) -> Outcome {
     let reference = counts_any(p, &codes, total);
     let mut lrng = Rng::new(case.len() as u64 * 7919 + codes.iter().sum::<u64>());
     if !prog.ops.iter().any(|o| matches!(o, Op::NewVar(_))) {
-        for _ in 0..2 {
+        for round in 0..3 {
             let vars = lrng.perm(total);
-            let vt = rand_vtree(&mut lrng, &vars);
+            // round 0: a root whose prime side has two variables and whose sub side has more (general
+            // decision nodes with non-literal primes: products of counts of unequal, longer lengths)
+            let vt = if round == 0 && total >= 5 {
+                VTree::new_node(Box::new(rand_vtree(&mut lrng, &vars[..2])), Box::new(rand_vtree(&mut lrng, &vars[2..])))
+            } else {
+                rand_vtree(&mut lrng, &vars)
+            };
             let sb = CompressionSddBuilder::new(vt);
             if let Some(spool) = exec_sdd(&sb, &prog) {
                 let sp = if neg { spool[target].neg() } else { spool[target] };
@@ -260,6 +269,16 @@ pub fn run(case: &str, st: &mut Stats) -> Outcome {
                         fails.push(format!("SDD counts {got} differ from the BDD counts {reference} of the same function (vtree over {vars:?})"));
                     }
                     st.bump("sdd_counts_compared");
+                    // every other pool entry too: the SDD and the BDD built by the same operations
+                    for k in 0..spool.len().min(pool.len()) {
+                        if k != target && matches!(spool[k], SddPtr::Reg(_) | SddPtr::Compl(_)) {
+                            let (gs, gb) = (counts_any(spool[k], &codes, total), counts_any(pool[k], &codes, total));
+                            if gs != gb {
+                                fails.push(format!("pool entry {k}: SDD counts {gs} differ from the BDD counts {gb} of the same function (vtree over {vars:?})"));
+                            }
+                            st.bump("sdd_general_nodes_counted");
+                        }
+                    }
                     if matches!(sp, SddPtr::Reg(_) | SddPtr::Compl(_)) { st.bump("sdd_general_node_root"); }
                 }
             }
